@@ -6,7 +6,7 @@ CONSTANTS Depth,         \* number of levels above the base (chain L0..LDepth)
 Lv(i) == <<"0", "1", "2", "3", "4", "5">>[i + 1]
 Other(x) == IF x = "a" THEN "b" ELSE "a"
 Body(lv, x, shape) ==
-  CASE shape = 1 -> <<Text(Lv(lv) \o x)>>
+  CASE shape = 1 -> <<Text(Lv(lv) \o x), Probe>>
     [] shape = 2 -> <<Text(Lv(lv) \o x), Super>>
     [] shape = 3 -> <<Super, Text(Lv(lv) \o x), Super>>
     [] shape = 4 -> <<Text(Lv(lv) \o x \o "<"), Block(Other(x), "none"), Super, Text(">")>>
@@ -25,7 +25,9 @@ Level(lv, aS, bS, wa, wb) ==
   LET blocks == (IF aS > 0 THEN [a |-> Body(lv, "a", aS)] ELSE <<>>) @@ (IF bS > 0 THEN [b |-> Body(lv, "b", bS)] ELSE <<>>) IN
   LET topA == IF aS > 0 /\ ~Nested(bS) THEN <<Block("a", wa)>> ELSE <<>> IN
   LET topB == IF bS > 0 /\ ~Nested(aS) THEN <<Block("b", wb)>> ELSE <<>> IN
-  [doc |-> <<Text("j" \o Lv(lv))>> \o topA \o <<Text("-")>> \o topB \o <<Text("k" \o Lv(lv))>>, blocks |-> blocks]
+  \* (templates that extend define a macro and a variable outside their blocks; the base - and shape 1 bodies - probe for them)
+  [doc |-> (IF lv > 0 THEN <<Def>> ELSE <<>>) \o <<Text("j" \o Lv(lv))>> \o topA \o <<Text("-")>> \o topB \o <<Text("k" \o Lv(lv))>> \o (IF lv = 0 THEN <<Probe>> ELSE <<>>),
+   blocks |-> blocks]
 
 VARIABLES chain, go
 Init ==
